@@ -263,6 +263,15 @@ macro_rules! boxed_func {
                 }
                 kani::assert(all_dead(0, 16), "C03.zip(Box, Box): both operands fully consumed, each element once");
                 drop(out);
+            } else if kani::any() {
+                drop(b);
+                let r = a.fold(0usize, |acc, x| {
+                    kani::assert(acc == calls && x.0 == calls && live(x.0), "C08.fold(Box): left fold in index order, each element live when handed out");
+                    calls += 1;
+                    drop(x);
+                    acc + 1
+                });
+                kani::assert(r == $n && calls == $n, "C08.fold(Box): one call per index, returns the last accumulator");
             } else {
                 drop(b);
                 let out: Box<GenericArray<D, $N>> = a.map(|x| {
